@@ -1696,58 +1696,16 @@ impl FixtureDatabase {
         file_path: &Path,
         fixture_name: &str,
     ) -> Option<FixtureDefinition> {
-        let definitions = self.definitions.get(fixture_name)?;
-
-        // Priority 1: Same file
-        if let Some(def) = definitions.iter().find(|d| d.file_path == file_path) {
-            return Some(def.clone());
-        }
-
-        // Priority 2: conftest.py in parent directories (closest first)
+        // Delegate to the resolver used by go-to-definition so that every feature
+        // agrees on which definition a name denotes (imports, last-wins, priorities).
         let file_path = self.get_canonical_path(file_path.to_path_buf());
-        let mut best_conftest: Option<&FixtureDefinition> = None;
-        let mut best_depth = usize::MAX;
-
-        for def in definitions.iter() {
-            if def.is_third_party {
-                continue;
-            }
-            if def.file_path.ends_with("conftest.py") {
-                if let Some(parent) = def.file_path.parent() {
-                    if file_path.starts_with(parent) {
-                        let depth = parent.components().count();
-                        if depth > best_depth {
-                            // Deeper = closer conftest
-                            best_conftest = Some(def);
-                            best_depth = depth;
-                        } else if best_conftest.is_none() {
-                            best_conftest = Some(def);
-                            best_depth = depth;
-                        }
-                    }
-                }
-            }
-        }
-
-        if let Some(def) = best_conftest {
-            return Some(def.clone());
-        }
-
-        // Priority 3: Plugin fixtures (pytest11 entry points)
-        if let Some(def) = definitions
-            .iter()
-            .find(|d| d.is_plugin && !d.is_third_party)
-        {
-            return Some(def.clone());
-        }
-
-        // Priority 4: Third-party (site-packages)
-        if let Some(def) = definitions.iter().find(|d| d.is_third_party) {
-            return Some(def.clone());
-        }
-
-        // Fallback: first definition
-        definitions.first().cloned()
+        self.find_closest_definition(&file_path, fixture_name)
+            .or_else(|| {
+                // Fallback kept from the previous implementation: first known definition
+                self.definitions
+                    .get(fixture_name)
+                    .and_then(|defs| defs.first().cloned())
+            })
     }
 
     /// Find the name of the function/fixture containing a given line.
